@@ -34,8 +34,16 @@ def run_history(cfg, calls):
     ratio = cfg["dw"] // cfg["gran"]
     b = csr.Builder(addr_width=64 if huge else cfg["aw"], data_width=cfg["dw"], granularity=cfg["gran"])
     regs, rid, cms, steps = {}, {}, [], []
-    for c in calls:
+    # scope objects may be created long before they are entered, and in another scope (chans = [regs.Index(i) ...] at
+    # top level, entered inside a cluster): a register is named by the scopes OPEN when it is added
+    early = {}
+    for k, c in enumerate(calls):
+        if c.get("pre") and c["call"] == "enter" and c["bad"] == "none":
+            p = c["part"]
+            early[k] = b.Cluster(p[2:]) if p.startswith("s:") else b.Index(int(p[2:]))
+    for k, c in enumerate(calls):
         c = dict(c, ok=1)
+        c.pop("pre", None)
         o = {"resources": []}
         try:
             if c["call"] == "add":
@@ -52,7 +60,9 @@ def run_history(cfg, calls):
                 b.add(name, reg, **kw)
             elif c["call"] == "enter":
                 p = c["part"]
-                if c["bad"] == "none":
+                if k in early:
+                    cm = early[k]
+                elif c["bad"] == "none":
                     cm = b.Cluster(p[2:]) if p.startswith("s:") else b.Index(int(p[2:]))
                 else:
                     cm = {"cluster_empty": lambda: b.Cluster(""), "cluster_int": lambda: b.Cluster(5),
@@ -112,6 +122,26 @@ def random_calls(r, cfg, length):
             out.append({"call": "add", "reg": nreg, "name": "s:ctrl", "offset": -1, "width": 8, "bad": "none"})
             out.append({"call": "exit", "bad": "none", "exc": 0})
         out.append({"call": "exit", "bad": "none", "exc": 0})
+    if r.random() < 0.15:
+        # a register named like a cluster that already holds a register collides with it - also when an array index
+        # that PRINTS like the name holds registers too (("1","x"), (1,"a"), ("1",): the layout must be refused)
+        k = r.choice([0, 1, 7])
+        scopes = [(f"s:{k}", "s:x"), (f"i:{k}", "s:a")]
+        if r.random() < 0.5:
+            scopes.reverse()
+        outer = r.random() < 0.4
+        if outer:
+            out.append({"call": "enter", "part": "s:bank", "bad": "none"})
+        for part, name in scopes:
+            out.append({"call": "enter", "part": part, "bad": "none"})
+            nreg += 1
+            out.append({"call": "add", "reg": nreg, "name": name, "offset": -1, "width": 8, "bad": "none"})
+            out.append({"call": "exit", "bad": "none", "exc": 0})
+        nreg += 1
+        out.append({"call": "add", "reg": nreg, "name": f"s:{k}", "offset": -1, "width": 8, "bad": "none"})
+        if outer:
+            out.append({"call": "exit", "bad": "none", "exc": 0})
+        out.append({"call": "as_memory_map", "bad": "none"})
     if r.random() < 0.3:
         # an exception travels through one or two scopes; registers added afterwards are named by what is left
         p, q = r.sample(["s:a", "s:b", "s:grp", "i:0", "i:1", "i:7"], 2)
@@ -158,6 +188,10 @@ def random_calls(r, cfg, length):
         else:
             out.append({"call": "as_memory_map", "bad": "none"})
     out.append({"call": "as_memory_map", "bad": "none"})
+    if r.random() < 0.35:
+        for c in out:
+            if c["call"] == "enter" and c["bad"] == "none":
+                c["pre"] = 1            # the scope object is created before the history starts, entered here
     return out
 
 
